@@ -5,8 +5,8 @@
 cd "$(dirname "$0")/.." || exit 2
 rc=0
 echo "== quick checks"
-for p in C01 C02 C03 C04 C05 C06 C08 C09 C10 C11 C12 C13 C14 C15 C16 C17 C18 C19 C20; do ./check $p > /tmp/rg-$p.txt 2>&1 & done; wait
-for p in C01 C02 C03 C04 C05 C06 C08 C09 C10 C11 C12 C13 C14 C15 C16 C17 C18 C19 C20; do
+for p in C01 C02 C03 C04 C05 C06 C07 C08 C09 C10 C11 C12 C13 C14 C15 C16 C17 C18 C19 C20; do ./check $p > /tmp/rg-$p.txt 2>&1 & done; wait
+for p in C01 C02 C03 C04 C05 C06 C07 C08 C09 C10 C11 C12 C13 C14 C15 C16 C17 C18 C19 C20; do
 	tail -n1 /tmp/rg-$p.txt | grep -q "violations=0 broken=0" || { echo "FAIL $p: $(tail -n1 /tmp/rg-$p.txt)"; rc=1; }
 done; rm -f /tmp/rg-C*.txt
 echo "== witnesses (must fire)"
@@ -17,8 +17,8 @@ echo "== seeded changes"
 python3 tools/seedmatrix.py -j 14 2>&1 | tail -n1 | tee /tmp/rg-s.txt; grep -q "unexpected 0" /tmp/rg-s.txt || rc=1
 if [ "$1" = "--thorough" ]; then
 	echo "== thorough tier"
-	for p in C01 C02 C03 C04 C05 C06 C08 C09 C10 C11 C12 C13 C14 C15 C16 C17 C18 C19 C20; do ./check $p --tier thorough > /tmp/rg-$p.txt 2>&1 & done; wait
-	for p in C01 C02 C03 C04 C05 C06 C08 C09 C10 C11 C12 C13 C14 C15 C16 C17 C18 C19 C20; do
+	for p in C01 C02 C03 C04 C05 C06 C07 C08 C09 C10 C11 C12 C13 C14 C15 C16 C17 C18 C19 C20; do ./check $p --tier thorough > /tmp/rg-$p.txt 2>&1 & done; wait
+	for p in C01 C02 C03 C04 C05 C06 C07 C08 C09 C10 C11 C12 C13 C14 C15 C16 C17 C18 C19 C20; do
 		tail -n1 /tmp/rg-$p.txt | grep -q "violations=0 broken=0" || { echo "FAIL thorough $p: $(tail -n1 /tmp/rg-$p.txt)"; rc=1; }
 	done; rm -f /tmp/rg-C*.txt
 fi
